@@ -476,6 +476,14 @@ class World:
             return self.current
         return NotImplemented
 
+    def is_element_dict(self, d) -> bool:
+        """one of the states / next_states / actions / disturbances dicts of an element of the network"""
+        for o in self.roles.values():
+            for g in ("states", "next_states", "actions", "disturbances"):
+                if o.attrs.get(g) is d:
+                    return True
+        return False
+
     def on_new_container(self, it, d, node):
         self.owned.add(id(d))
         self.containers_keepalive.append(d)
